@@ -121,8 +121,11 @@ def process_unit(ctx):
         node = graph.Call(user_fn, scope=("outer", 7), stack_frame=None)
     raised = {}
 
+    ARGS = ["argument", "values"]      # stands for the results the call consumes: BoundCall.run holds them in its frame
+
     class BC:
         def run(self, fn, retry):
+            args = ARGS  # noqa: F841  (a local of this frame, like args / kwargs in the real BoundCall.run)
             calls.append((fn, retry))
 
             def _user():
@@ -158,6 +161,33 @@ def process_unit(ctx):
         ctx.check("returns-normally-only-if-the-call-function-returned", bool("e" not in raised), props=["C01", "C06"])
         return "returns"
     e = raised.get("e")
+
+    def holders(*excs):
+        """frames reachable from the given exceptions (tracebacks, causes, contexts) - other than the user function's own frame - that still hold the
+        bound call or the argument values in a local: whoever keeps such an exception (the engine keeps the first NodeError until the run ends,
+        the bundled displays keep every reported failure) keeps those values alive"""
+        seen, out, todo = set(), [], [x for x in excs if x is not None]
+        while todo:
+            x = todo.pop()
+            if id(x) in seen:
+                continue
+            seen.add(id(x))
+            todo.extend(y for y in (x.__cause__, x.__context__) if y is not None)
+            tb = x.__traceback__
+            while tb is not None:
+                f = tb.tb_frame
+                if f.f_code.co_name != "_user":
+                    for k, v in list(f.f_locals.items()):
+                        if v is ARGS or isinstance(v, BC) or (isinstance(v, util.Slot) and isinstance(v.value, BC)):
+                            out.append((f.f_code.co_name, k))
+                tb = tb.tb_next
+        return out
+
+    if kind == "raise" and isinstance(e, UserExc):
+        reported = [x[3] for x in tr.ev if x[0] == "failed"]
+        h = holders(val, *reported)
+        ctx.check("Exception:neither-the-raised-NodeError-nor-the-error-reported-to-the-observer-keeps-a-frame-that-holds-the-bound-call-or-its-argument-values",
+                  bool(not h), props=["C16"], info=str(h))
     if isinstance(e, UserExc):
         ok = (len(tr.ev) == 2 and tr.ev[0] == running and tr.ev[1][:3] == ("failed", "run", s) and isinstance(tr.ev[1][3], errors.CallError)
               and tr.ev[1][3].call is node and tr.ev[1][3].__cause__ is e)
@@ -495,7 +525,10 @@ def with_retry(plan, make, use):
     b = plan.call(consume, a); c = plan.call(use("c", "a"), b); return c
 # a consumer that FAILS while the run goes on (max_errors=None, another call failed first): its argument must be released all the same
 import operator, time
-def failing_case(name, kind, workers, sched):
+def failing_case(name, kind, workers, sched, display=False):
+    # display: a bundled display observes the run - it keeps every reported failure until the run ends, so what it is handed must not hold the arguments
+    from uberjob.progress._html_progress_observer import HtmlProgressObserver
+    progress = uberjob.progress.Progress(lambda: HtmlProgressObserver(lambda data: None, initial_update_delay=0.01, min_update_interval=0.01, max_update_interval=0.05)) if display else None
     refs = {}; first_failed = threading.Event(); consumer_done = threading.Event()
     class Quit(BaseException): pass
     def make():
@@ -521,7 +554,7 @@ def failing_case(name, kind, workers, sched):
         # frame of user code, so nothing the run keeps may reference the argument
         def gate(): consumer_done.set(); return 0
         c = plan.call(operator.getitem, a, plan.call(gate)); l = plan.call(late)
-        try: uberjob.run(plan, output=[c, l], progress=None, max_workers=workers, scheduler=sched, max_errors=None)
+        try: uberjob.run(plan, output=[c, l], progress=progress, max_workers=workers, scheduler=sched, max_errors=None)
         except uberjob.CallError: pass
         return
     f0 = plan.call(first_fail)
@@ -531,13 +564,15 @@ def failing_case(name, kind, workers, sched):
     else:
         c = plan.call(consume_py, a)
     l = plan.call(late)
-    try: uberjob.run(plan, output=[c, l, f0], progress=None, max_workers=workers, scheduler=sched, max_errors=None)
+    try: uberjob.run(plan, output=[c, l, f0], progress=progress, max_workers=workers, scheduler=sched, max_errors=None)
     except uberjob.CallError: pass
 gc.disable()      # strict reading: freed by reference counting, not at some later cyclic collection
 for workers in (3,):
     for sched in ("default", "random"):
         for kind in ("exception", "base", "c-level", "c-level-first"):
             failing_case(f"failing-consumer[{kind},workers={workers},{sched}]", kind, workers, sched)
+            if kind.startswith("c-level"):
+                failing_case(f"failing-consumer[{kind},workers={workers},{sched},observed-by-a-display]", kind, workers, sched, display=True)
 for workers in (1, 3):
     for sched in ("default", "random"):
         for name, build in (("chain", chain), ("diamond", diamond), ("gathered", gathered), ("output_kept", output_kept), ("dependency_only", dependency_only)):
@@ -575,4 +610,4 @@ unit("runphys.release[bounded]", props=["C16"],
      assumptions=["bounded stand-in: six plan shapes + a failing consumer (Exception / BaseException / C-level) while the run goes on; strict reading: the cyclic collector is disabled, results must be freed by reference counting"],
      min_obligations=2, kind="bounded")(_c16_bounded)
 
-REPLAYS = [("runphys.release*", _replay16), ("runphys.no-exception-retention*", _replay16), ("runphys.process/call:bound-call-released*", _replay16)] + list(globals().get("REPLAYS", []))
+REPLAYS = [("runphys.release*", _replay16), ("runphys.no-exception-retention*", _replay16), ("runphys.process/call:bound-call-released*", _replay16), ("runphys.process/Exception:neither-the-raised*", _replay16)] + list(globals().get("REPLAYS", []))
